@@ -9,6 +9,7 @@ import GdVerif.Run.Master
 import GdVerif.Run.Settings
 import GdVerif.Run.Views
 import GdVerif.Run.Games
+import GdVerif.Run.Dispatch
 import GdVerif.Run.IdCheck
 import GdVerif.Run.Real
 import GdVerif.Run.Cli
@@ -41,6 +42,7 @@ def allEntries : List (String × (List String → String)) := List.flatten [
   settingsEntries,
   viewEntries,
   gameEntries,
+  dispatchEntries,
   idCheckEntries,
   realEntries,
   cliEntries,
